@@ -50,6 +50,9 @@ func (e *Engine) val(fr *Frame, v ssa.Value) Value {
 	case *ssa.Function:
 		return &ClosureV{Fn: x}
 	case *ssa.Global:
+		if x.Pkg != nil && !ourPkg(x.Pkg.Pkg.Path()) {
+			e.foreignGlobals[globalKey(x)] = true
+		}
 		return &PtrV{Kind: PGlobal, Key: globalKey(x), T: x.Type().(*types.Pointer).Elem()}
 	case *ssa.Builtin:
 		return x
@@ -216,11 +219,15 @@ func (e *Engine) exec(fr *Frame, blk *ssa.BasicBlock, idx int, st *State, k func
 				e.jump(fr, blk, blk.Succs[0], st, k)
 				return
 			}
+			if e.ifConvert(fr, blk, st, cond) {
+				e.jump(fr, blk, blk.Succs[1], st, k)
+				return
+			}
 			st2 := st.Clone()
-			st.Assume(cond)
+			st.Branch(cond)
 			st.Trace = append(st.Trace, p+":T")
 			e.jump(fr, blk, blk.Succs[0], st, k)
-			st2.Assume(nc)
+			st2.Branch(nc)
 			st2.Trace = append(st2.Trace, p+":F")
 			e.jump(fr, blk, blk.Succs[1], st2, k)
 			return
@@ -399,6 +406,12 @@ func (e *Engine) regionOfNoted(st *State, key string, obj *smt.Term) *smt.Term {
 		st.Assume(c.Eq(c.App("region_kind", smt.BV64, r), c.Var("regionkind$"+key, smt.BV64)))
 		st.Assume(c.Not(c.Eq(r, e.i64(0))))
 		st.Assume(c.Select(e.allocMap(st), r))
+		g := c.App("region_ghost", smt.Bool, r)
+		if strings.Contains(key, ".ghost") {
+			st.Assume(g)
+		} else {
+			st.Assume(c.Not(g))
+		}
 	}
 	return r
 }
@@ -811,4 +824,82 @@ func (e *Engine) obligeNamed(st *State, fr *Frame, kind, label string, goal *smt
 	// after the check the fact may be used on this path
 	st.Known[goal] = true
 	st.Assume(goal)
+}
+
+// ifConvert handles "if c { simple assignments to locals }": the then-block is
+// executed on a copy of the state and the local cells are merged with ite, so that
+// such diamonds do not multiply the number of paths. Only blocks that cannot raise
+// obligations, call, or touch the heap qualify.
+func (e *Engine) ifConvert(fr *Frame, blk *ssa.BasicBlock, st *State, cond *smt.Term) bool {
+	then, join := blk.Succs[0], blk.Succs[1]
+	if len(then.Preds) != 1 || len(then.Succs) != 1 || then.Succs[0] != join || then == join {
+		return false
+	}
+	for _, in := range join.Instrs {
+		if _, ok := in.(*ssa.Phi); ok {
+			return false
+		}
+	}
+	if fr.loops == nil {
+		fr.loops = e.loopsOf(fr.Fn)
+	}
+	if fr.loops[join] != nil || fr.loops[then] != nil {
+		return false
+	}
+	for _, in := range then.Instrs {
+		switch x := in.(type) {
+		case *ssa.DebugRef, *ssa.Jump, *ssa.Convert, *ssa.ChangeType:
+		case *ssa.BinOp:
+			switch x.Op {
+			case token.QUO, token.REM, token.SHL, token.SHR:
+				return false
+			}
+		case *ssa.UnOp:
+			if x.Op == token.MUL {
+				if _, ok := x.X.(*ssa.Alloc); !ok {
+					return false
+				}
+			} else if x.Op == token.ARROW {
+				return false
+			}
+		case *ssa.Store:
+			if _, ok := x.Addr.(*ssa.Alloc); !ok {
+				return false
+			}
+			switch x.Val.Type().Underlying().(type) {
+			case *types.Basic:
+			default:
+				return false
+			}
+		default:
+			return false
+		}
+	}
+	st2 := st.Clone()
+	for _, in := range then.Instrs {
+		switch x := in.(type) {
+		case *ssa.Store:
+			e.store(st2, e.val(fr, x.Addr), x.Val.Type(), e.val(fr, x.Val), "")
+		case *ssa.UnOp:
+			fr.Vals[x] = e.unop(st2, fr, x)
+		case *ssa.BinOp:
+			fr.Vals[x] = e.binop(st2, x.Op, e.val(fr, x.X), e.val(fr, x.Y), x.X.Type(), x.Y.Type(), fr, "")
+		case *ssa.Convert:
+			fr.Vals[x] = e.convert(st2, e.val(fr, x.X), x.X.Type(), x.Type(), fr, "")
+		case *ssa.ChangeType:
+			fr.Vals[x] = e.val(fr, x.X)
+		}
+	}
+	for cell, nv := range st2.Cells {
+		ov, ok := st.Cells[cell]
+		if ok && ov == nv {
+			continue
+		}
+		if !ok {
+			ov = e.zero(cell.T)
+		}
+		st.Cells[cell] = e.iteVal(cond, nv, ov)
+	}
+	e.Stats["if-conversions"]++
+	return true
 }
